@@ -293,6 +293,8 @@ def main():
     fams = args or list(FAMILIES)
     pids = [c['property_id'] for c in json.load(open(
         os.path.join(HERE, 'MANIFEST.json')))['checks']]
+    if os.environ.get('ONLY'):
+        pids = [p for p in pids if p in os.environ['ONLY'].split(',')]
     base = {pid: {f.key for f in run_consensus(pid, quiet=True).findings}
             for pid in pids}
     nbad = 0
